@@ -120,6 +120,7 @@ agree_owned = ["totals-row-sum", "period-total", "single-element-rows", "balance
 specs["C07"] = {"runs": [
     run(CMD + "balance:Harness_reports_agree", Q, {"D": 1, "E": 2}, "real", owned=agree_owned, cover=["totals-read"]),
     run(CMD + "stats:Harness_stats_counts", QT, {"R": 3}, cover=["ran"]),
+    run(CMD + "stats:Harness_stats_distances", QT, {}, cover=["ran"], note="concrete supplement: 4 values of --today x 11 x 11 distances (0, 1, 2, 28, 29, 59, 365, 366, 1000 days back, 1 and 30 days ahead): the (n days ago) figures, through the real Time.Sub/Duration.Hours code executed concretely"),
     run(CMD + "balance:Harness_golden_concrete", QT, {}, "fp", owned=["golden-"], cover=["golden-totals"], concrete_fmt=True, note="translator validation on the repository's golden `report totals` output"),
     run(CMD + "balance:Harness_reports_agree", T, {"D": 2, "E": 2}, "real", owned=agree_owned, cover=["totals-read"]),
     run("cmd/hranoprovod-cli:Harness_app_pipeline", QT, {'command': 1, 'posbook': 1, 'E': 1, 'shapes': 3}, "real", cover=["ran"], note="whole application on book and log text with symbolic values: `report totals` = the model's signed period totals (every relation of the property is decided against one model computed from the same symbolic values)"),
@@ -130,7 +131,7 @@ specs["C07"] = {"runs": [
     run("cmd/hranoprovod-cli:Harness_app_pipeline", QT, {'command': 11, 'posbook': 1, 'E': 1, 'shapes': 3}, "real", cover=["ran"], note="`register --totals-only` daily totals (default template, rendered) = the model's daily totals, whose sum is the period total"),
     run("cmd/hranoprovod-cli:Harness_app_pipeline", QT, {'command': 13, 'posbook': 1, 'E': 1, 'shapes': 3}, "real", cover=["ran"], note='`summary DATE` = the totals and foods of that day as the register shows them'),
  ], "assumptions": [REAL, DATA],
- "outside_claim": ["stats day distances (Time.Sub and Hours()/24 truncation: 64-bit multiplication by 10^9 is out of reach for the solvers)", "rendered digits"],
+ "outside_claim": ["stats day distances for symbolic dates (Time.Sub and Hours()/24 truncation: 64-bit multiplication by 10^9 is out of reach for the solvers; a concrete corpus is run instead)", "rendered digits"],
  "stubs": [FMT, BUFIO, CSVW, TIME]}
 
 c08 = [ls(7, Q, {"n": 3, "m": 2, "a": 4}, ["no-panic"]), ls(7, T, {"n": 3, "m": 2, "a": 6}, ["no-panic"])]
